@@ -88,11 +88,14 @@ func (feeder *outputFeeder) Run() {
 	// clean up
 	close(feeder.outputChannel)
 	feeder.outputClosed.Signal()
-	feeder.saveEverything(lastInputChunk)
+	numSaved, numDropped := feeder.saveQueued(lastInputChunk)
 
-	// wait for consumers here because the callbacks depend on chunkMan/dir
+	// wait for consumers here because the callbacks depend on chunkMan/dir, and because a consumer that has not
+	// noticed the stop yet still takes chunks from outputChannel in order: saving older chunks from it while the
+	// consumer transmits newer ones would deliver them out of order after the next start
 	feeder.logger.Infof("waiting for consumers: count=%d", feeder.consumerCounter.Peek())
 	feeder.consumerCounter.Wait()
+	feeder.saveOutput(numSaved, numDropped)
 	feeder.chunkMan.Close()
 	feeder.stopped.Signal()
 	feeder.logger.Info("ended")
@@ -126,7 +129,9 @@ func (feeder *outputFeeder) loadToOutput(chunk base.LogChunk) bool {
 	}
 }
 
-func (feeder *outputFeeder) saveEverything(lastInputChunk base.LogChunk) {
+// saveQueued saves the chunks which no consumer can reach anymore: the rest of inputChannel and the chunk taken
+// from it by the main loop
+func (feeder *outputFeeder) saveQueued(lastInputChunk base.LogChunk) (int, int) {
 	numSaved := 0
 	numDropped := 0
 
@@ -149,6 +154,11 @@ func (feeder *outputFeeder) saveEverything(lastInputChunk base.LogChunk) {
 		}
 	}
 
+	return numSaved, numDropped
+}
+
+// saveOutput saves what is left in outputChannel; must only be called after all consumers have quit
+func (feeder *outputFeeder) saveOutput(numSaved int, numDropped int) {
 	// try to save all chunks in outputChannel (consumers already quit)
 	for chunk := range feeder.outputChannel {
 		// scopelint:ignore
